@@ -28,6 +28,7 @@
 -/
 import Flamego.Base.Bytes
 import Flamego.Model.Writer
+import Flamego.Gen.ConstFacts
 
 namespace Flamego
 
@@ -49,19 +50,35 @@ structure Opts where
   xmlIndent  : Bytes := []
   deriving DecidableEq, Repr
 
-/-- `parseRenderOptions`: an empty charset becomes "utf-8"; nothing else changes -/
+/-- `parseRenderOptions`: an empty charset becomes "utf-8" (`Gen.renderDefaultCharset`, the
+    literal of render.go read on every run); nothing else changes -/
 def Opts.parse (o : Opts) : Opts :=
-  if o.charset = [] then { o with charset := b!"utf-8" } else o
+  if o.charset = [] then { o with charset := Gen.renderDefaultCharset } else o
 
 inductive Kind | json | xml | binary | plainText
   deriving DecidableEq, Repr
 
-/-- the argument of `Header().Set("Content-Type", …)` in each method; Binary has no charset -/
+/-- one Content-Type argument as the source spells it: the literal, followed by
+    `r.opts.Charset` iff the source appends it -/
+def typeWith (o : Opts) (lit : Bytes) (withCharset : Bool) : Bytes :=
+  if withCharset then lit ++ o.charset else lit
+
+/-- the argument of `Header().Set("Content-Type", …)` in each method, built from the literals
+    the translator reads in (*render).JSON / XML / Binary / PlainText (Gen/ConstFacts);
+    documented: Binary has no charset, the other three end in `; charset=` + the charset -/
 def contentType (o : Opts) : Kind → Bytes
-  | .json      => b!"application/json; charset=" ++ o.charset
-  | .xml       => b!"text/xml; charset=" ++ o.charset
-  | .binary    => b!"application/octet-stream"
-  | .plainText => b!"text/plain; charset=" ++ o.charset
+  | .json      => typeWith o Gen.renderJSONType Gen.renderJSONCharset
+  | .xml       => typeWith o Gen.renderXMLType Gen.renderXMLCharset
+  | .binary    => typeWith o Gen.renderBinaryType Gen.renderBinaryCharset
+  | .plainText => typeWith o Gen.renderPlainType Gen.renderPlainCharset
+
+/-- the status of `http.Error` when an encoder fails (JSON's literal; XML's is tied to the same
+    value in Props/ConstFacts/C17) -/
+def encodeErrorStatus : Nat := Gen.renderJSONErrorStatus
+
+attribute [simp] typeWith encodeErrorStatus Gen.renderJSONType Gen.renderJSONCharset Gen.renderXMLType
+  Gen.renderXMLCharset Gen.renderBinaryType Gen.renderBinaryCharset Gen.renderPlainType
+  Gen.renderPlainCharset Gen.renderDefaultCharset Gen.renderJSONErrorStatus
 
 /-! ### the encoders are parameters -/
 
@@ -111,7 +128,7 @@ def httpError (msg : Bytes) (code : Nat) : List ROp :=
 
 /-- `err := enc.Encode(v); if err != nil { http.Error(w, err.Error(), 500) }` -/
 def encodeOps (e : EncOut) : List ROp :=
-  e.chunks.map ROp.write ++ (match e.err with | none => [] | some m => httpError m 500)
+  e.chunks.map ROp.write ++ (match e.err with | none => [] | some m => httpError m encodeErrorStatus)
 
 /-- the body part of each method -/
 def bodyOps {V : Type} (enc : Encoder V) (o : Opts) (head : Bool) : Payload V → List ROp
